@@ -4,8 +4,11 @@ PROP = {
     "properties_file": "Properties/C03.v",
     "theorems": ["C03_bgp_select_is_rfc", "C03_select_is_rfc", "C03_higher_local_pref", "C03_shorter_as_path",
                  "C03_lower_origin", "C03_lower_med", "C03_ebgp_over_ibgp", "C03_lowest_identifier",
-                 "C03_shorter_cluster_list", "C03_lowest_peer_address", "C03_other_ordering"],
+                 "C03_shorter_cluster_list", "C03_lowest_peer_address", "C03_other_ordering",
+                 "C03_generated_select_agrees", "C03_select_is_rfc_gen"],
     "allowed_axioms": [],
+    # translator: regenerates coq/Gen/SelectGen.v from $VERIF_REPO/route, net on every run (written only when changed)
+    "gen": [{"name": "gosub2coq", "cmd": ["python3", "tools/gosub2coq/run.py", "route"], "timeout": 600}],
     "harness": "c03",
     "modelrun": {"name": "c03", "extracted": ["c03_model"], "driver": "ocaml/c02/c02_run.ml"},
     "tiers": {"quick": {"cases": 30000}, "thorough": {"cases": 600000}},
@@ -18,6 +21,10 @@ PROP = {
             "Non-trivial: the pair is still tied after the eBGP step (steps f, g decide) or mixes protocols; a group is "
             "non-trivial when it has equal-cost candidates or mixes CLUSTER_LIST presence / protocols; distinct = distinct inputs. Every generator also varies what the decision process must NOT read: AS_PATH contents at equal length (first ASN / leading AS_SET / nil, empty, segment-less AS_PATH), communities, large communities, unknown attributes, ATOMIC_AGGREGATE, AGGREGATOR, path id, OTC, BMPPostPolicy, LTime, HiddenReason, RedistributedFrom; C03 additionally sweeps every ordered pair of a 76-path domain MED x AS_PATH variant x eBGP x identifier x peer address",
     "trusted_base": [
+        "tools/gosub2coq (profile route; go/packages, go/types): the translation of BGPPath.Select / ECMP / clusterListLen, "
+        "StaticPath.Select / ECMP and IP.Compare into coq/Gen/SelectGen.v over the records of Model/PathSel.v (field map, "
+        "subset and non-nil assumptions in tools/gosub2coq/main.go and the header of SelectGen.v); the dispatching "
+        "Path.Select / Path.ECMP stay hand-modelled",
         "extraction (ExtrOcamlBasic only) + ocaml/common/conv.ml + ocaml/c02/c02_run.ml",
         "Go harness harness/pathsel + harness/cmd/c03 (path construction from descriptions, observation of "
         "Path.Select/ECMP/Compare/Equal and of LocRIB.Get after AddPath/RemovePath, RFC oracle written independently of Select)",
